@@ -94,7 +94,7 @@ func discoverWrites(kind string) []string {
 func gen(out *vc.Out, r *vc.Rand, thorough bool) {
 	var fast, slow []string
 	add := func(c string) {
-		if strings.Contains(c, " X") {
+		if strings.Contains(c, " X") || strings.HasPrefix(c, "snode") {
 			slow = append(slow, c)
 		} else {
 			fast = append(fast, c)
@@ -171,6 +171,65 @@ func gen(out *vc.Out, r *vc.Rand, thorough bool) {
 		}
 		add("nodes" + strings.TrimPrefix(schedCase(500, 1, i%2, 1+i%3, 101, i%3, two, evs), "sched"))
 		out.Count("nodes:quota,expiry")
+	}
+
+	// P: several calls through ONE node (one service stack: whatever the code keeps in the process is shared) with
+	// status polls whose storage read is answered early and returned late
+	snode := func(ths []tspec, evs []string) string {
+		return "snode" + strings.TrimPrefix(schedCase(500, 1, 1, 50, 0, 0, ths, evs), "sched")
+	}
+	rep := func(ev string, n int) []string {
+		var r []string
+		for i := 0; i < n; i++ {
+			r = append(r, ev)
+		}
+		return r
+	}
+	for _, first := range []string{"a", "r"} {
+		for _, last := range []string{"a", "r"} {
+			ths := []tspec{{first, 101, 1, "", 0}, {"p", 0, 0, "", 0}, {last, 102, 2, "", 0}}
+			for a := 0; a <= 6; a++ {
+				for b := 0; b <= 4; b++ {
+					evs := append([]string{"C"}, rep("t0", a)...)
+					evs = append(evs, "t1")
+					evs = append(evs, rep("t0", 7-a)...)
+					evs = append(evs, rep("t2", b)...)
+					evs = append(evs, "t1")
+					add(snode(ths, evs))
+					out.Count("samenode:poll-held-across-a-call")
+				}
+			}
+		}
+	}
+	words(2, 8, func(w []string) {
+		add(snode(two, append([]string{"C"}, w...)))
+		out.Count("samenode:2act")
+	})
+	words(3, 6, func(w []string) {
+		add(snode(three, append([]string{"C"}, w...)))
+		out.Count("samenode:2act+revoke")
+	})
+	prounds := 200
+	if thorough {
+		prounds = 3000
+	}
+	for i := 0; i < prounds; i++ {
+		kinds := []string{"a", "p", "a", "r", "p"}
+		n := 3 + r.Intn(2)
+		var ths []tspec
+		for k := 0; k < n; k++ {
+			kd := vc.Pick(r, kinds)
+			if k == 0 {
+				kd = "a"
+			}
+			ths = append(ths, tspec{kind: kd, listener: int64(101 + k), laddr: 1 + r.Intn(2)})
+		}
+		evs := []string{"C"}
+		for k := 0; k < 6+r.Intn(8); k++ {
+			evs = append(evs, fmt.Sprintf("t%d", r.Intn(n)))
+		}
+		add(snode(ths, evs))
+		out.Count("samenode:random")
 	}
 
 	// U: unique code generation on a tiny code space (the real CreateConnectionCode keeps drawing codes that exist)
@@ -281,6 +340,9 @@ func gen(out *vc.Out, r *vc.Rand, thorough bool) {
 			}
 			if r.Intn(4) == 0 {
 				t.spell = 1 + r.Intn(len(spellings)-1)
+			}
+			if r.Intn(9) == 0 {
+				t.kind, t.fault = "p", ""
 			}
 			ths = append(ths, t)
 		}
